@@ -6,10 +6,12 @@
 mod alloc;
 mod anyq;
 mod core;
+mod engine;
 mod hooks;
 mod mmio;
 mod out;
 mod pci;
+mod scen_blk;
 mod scen_cfg;
 mod scen_layout;
 mod scen_life;
@@ -17,6 +19,7 @@ mod scen_mmio;
 mod scen_pci;
 mod scen_vq;
 mod zoo;
+mod tmake;
 mod transport;
 
 use serde_json::{Value, json};
@@ -118,6 +121,7 @@ fn main() {
         "mmio" => family_mmio(&args),
         "cfg" => family_cfg(&args),
         "pci" => family_pci(&args),
+        "blk" => family_generic(&args, "blk", |a| scen_blk::all_params(a.tier == "thorough", a.seed), |v| scen_blk::BlkParams::from_json(v), |p| p.to_json(), |p, sc| scen_blk::run(p, sc)),
         f => {
             eprintln!("unknown family {f}");
             2
@@ -257,6 +261,30 @@ fn family_pci(args: &Args) -> i32 {
     let index: Vec<Value> = jobs.iter().enumerate().map(|(k, p)| json!({"sc": format!("pci{}-{k}", p.mode), "params": p.to_json()})).collect();
     let res = run_parallel(jobs, |p, k| run(p, &format!("pci{}-{k}", p.mode)), out.clone());
     let idx = json!({"family":"pci","scenarios":index,"summaries":res,"events":out.events.load(Ordering::Relaxed)});
+    std::fs::write(format!("{}.index.json", args.out), serde_json::to_string(&idx).unwrap()).unwrap();
+    0
+}
+
+/// Families whose scenarios produce [device-level trace, queue-level trace].
+fn family_generic<P: Send + Sync + 'static>(
+    args: &Args,
+    name: &'static str,
+    all: impl Fn(&Args) -> Vec<P>,
+    from_json: impl Fn(&Value) -> P,
+    to_json: impl Fn(&P) -> Value,
+    run: impl Fn(&P, &str) -> (Vec<Vec<String>>, Value) + Send + Sync + 'static,
+) -> i32 {
+    let jobs: Vec<P> = if let Some(r) = &args.replay {
+        let v: Value = serde_json::from_str(&std::fs::read_to_string(r).expect("replay file")).expect("json");
+        vec![from_json(&v["params"])]
+    } else {
+        all(args)
+    };
+    let out = Arc::new(out::Out::create(&args.out));
+    let outq = Arc::new(out::Out::create(&format!("{}.q.ndjson", args.out)));
+    let index: Vec<Value> = jobs.iter().enumerate().map(|(k, p)| json!({"sc": format!("{name}-{k}"), "params": to_json(p)})).collect();
+    let res = run_parallel_multi(jobs, move |p, k| run(p, &format!("{name}-{k}")), vec![out.clone(), outq.clone()]);
+    let idx = json!({"family":name,"scenarios":index,"summaries":res,"events":out.events.load(Ordering::Relaxed),"qevents":outq.events.load(Ordering::Relaxed)});
     std::fs::write(format!("{}.index.json", args.out), serde_json::to_string(&idx).unwrap()).unwrap();
     0
 }
